@@ -103,6 +103,9 @@ def case_strategy(draw):
         # file source whose file meta information lacks the Media Storage SOP Instance UID (written by sloppy
         # software; the library caters for it by looking into the data set)
         'meta_without_instance_uid': draw(st.sampled_from([False, False, True])),
+        # ... or whose File Meta Information Group Length does not match the group (computed before padding, say):
+        # readers find the end of group 0002 by looking at the tags, as pydicom and this library do
+        'meta_group_length_off': draw(st.sampled_from([0, 0, 0, 2, -2, 18])),
     }
 
 
@@ -204,6 +207,15 @@ def run_case(case):
                                 fds.save_as(path, write_like_original=False)
                             if case.get('reuse_path'):
                                 os.utime(path, (1600000000, 1600000000))
+                            off = case.get('meta_group_length_off') or 0
+                            if off:
+                                import struct
+                                with open(path, 'r+b') as fh:
+                                    fh.seek(132)
+                                    head = fh.read(12)
+                                    if head[:6] == b'\x02\x00\x00\x00UL':
+                                        fh.seek(140)
+                                        fh.write(struct.pack('<I', max(0, struct.unpack('<I', head[8:12])[0] + off)))
                             arg = path
                         else:
                             arg = ds
@@ -292,6 +304,10 @@ FIXED = [
             'StudyDescription': 'structured report, no pixel data'},
      'ts': 1, 'client_max': 16384, 'server_max': 16384, 'source': 'file', 'reception': 'tempfile',
      'outcome': ['status', 0], 'repeat': 2, 'align': None, 'meta_without_instance_uid': True},
+    {'ds': {'SOPClassUID': svc.CT_STORAGE, 'SOPInstanceUID': '1.2.826.0.1.3680043.9.15.9', 'PatientName': 'Group^Length',
+            'PatientID': 'gl', 'EncapsulatedDocument': {'len': 333, 'salt': 2}},
+     'ts': 0, 'client_max': 16384, 'server_max': 16384, 'source': 'file', 'reception': 'tempfile',
+     'outcome': ['status', 0], 'repeat': 2, 'align': None, 'meta_group_length_off': -2},
     # PDUs far larger than what one TCP read delivers on loopback
     {'ds': {'SOPClassUID': svc.CT_STORAGE, 'SOPInstanceUID': '1.2.826.0.1.3680043.9.15.4', 'PatientName': 'Big^Pdu',
             'EncapsulatedDocument': {'len': 1500001, 'salt': 5}},
